@@ -4,6 +4,8 @@
 //! `ModTable`: a #[repr(C)] table of extern "C" functions over cglue's FFI-safe types.
 #![allow(clippy::missing_safety_doc)]
 use cglue::prelude::v1::*;
+use cglue::trait_group::c_void;
+use cglue_macro::check;
 use std::alloc::{GlobalAlloc, Layout, System};
 use std::sync::atomic::{AtomicI64, AtomicU64, Ordering::SeqCst};
 use std::sync::Arc;
@@ -77,7 +79,13 @@ pub static LIVE: AtomicI64 = AtomicI64::new(0);
 pub static TOKENS: AtomicI64 = AtomicI64::new(0);
 
 pub struct Impl { base: u64, label: String, items: Vec<(u8, u64)> }
-impl Impl { fn new(seed: u64) -> Self { LIVE.fetch_add(1, SeqCst); Impl { base: seed, label: format!("impl-{}", seed), items: vec![] } } }
+impl Impl {
+    fn new(seed: u64) -> Self {
+        LIVE.fetch_add(1, SeqCst);
+        let tail: String = std::iter::repeat((b'a' + (seed % 26) as u8) as char).take((seed % 5 + 1) as usize).collect();
+        Impl { base: seed, label: format!("impl-{}", tail), items: vec![] }
+    }
+}
 impl Drop for Impl { fn drop(&mut self) { LIVE.fetch_sub(1, SeqCst); } }
 impl Clone for Impl { fn clone(&self) -> Self { LIVE.fetch_add(1, SeqCst); Impl { base: self.base, label: self.label.clone(), items: self.items.clone() } } }
 impl Counter for Impl {
@@ -141,7 +149,7 @@ pub struct ModTable {
     pub obj_drop: extern "C" fn(Obj),
     pub make_grp: extern "C" fn(u64, Ctx, u32) -> Grp,
     pub grp_get: extern "C" fn(&Grp) -> u64,
-    pub grp_clone: extern "C" fn(&Grp, &mut COption<Grp>),
+    pub grp_clone: extern "C" fn(Grp, &mut COption<Grp>) -> Grp,
     pub grp_put: extern "C" fn(&mut Grp, CSliceRef<u8>, u64) -> i64,
     pub grp_sum: extern "C" fn(&Grp) -> i64,
     pub grp_visit_local_cb: extern "C" fn(&Grp, u64) -> i64,
@@ -157,7 +165,7 @@ pub struct ModTable {
     pub stats: extern "C" fn(&mut Stats),
 }
 
-extern "C" fn make_ctx() -> Ctx { CArc::from(Arc::new(Token::new())).into_opaque() }
+extern "C" fn make_ctx() -> Ctx { CArc::<Token>::from(Arc::new(Token::new())).into_opaque() }
 extern "C" fn ctx_clone(c: &Ctx) -> Ctx { c.clone() }
 extern "C" fn ctx_drop(c: Ctx) { drop(c) }
 extern "C" fn make_obj(seed: u64, ctx: Ctx) -> Obj { trait_obj!((Impl::new(seed), ctx) as Counter) }
@@ -174,8 +182,15 @@ extern "C" fn make_grp(seed: u64, ctx: Ctx, enabled: u32) -> Grp {
     }
 }
 extern "C" fn grp_get(g: &Grp) -> u64 { g.get() }
-extern "C" fn grp_clone(g: &Grp, out: &mut COption<Grp>) {
-    *out = match as_ref!(g impl Clone) { Some(c) => COption::Some(c.clone().upcast()), None => COption::None };
+extern "C" fn grp_clone(g: Grp, out: &mut COption<Grp>) -> Grp {
+    if check!(g impl Clone) {
+        let c = cast!(g impl Clone).unwrap();
+        *out = COption::Some(c.clone().upcast());
+        c.upcast()
+    } else {
+        *out = COption::None;
+        g
+    }
 }
 extern "C" fn grp_put(g: &mut Grp, key: CSliceRef<u8>, v: u64) -> i64 {
     match as_mut!(g impl Store) { Some(s) => if s.put(key.as_slice(), v).is_ok() { 1 } else { 0 }, None => -1 }
